@@ -206,7 +206,62 @@ def o_reuse(inp):
     return (None, len(inp["fmts"]) >= 2, ("format-reuse",))
 
 
-SUBS = {"write": o_write, "columns": o_columns, "setter": o_setter, "reuse": o_reuse}
+def o_edited(inp):
+    """A library that is read (views, a first write) and then edited through the public model API must be written
+    as it is *now*: inp {"lib": [specs], "fmt": spec, "edits": [[block index, kind, args...]]}
+    kinds: rename (field index, new key) | setvalue (field index, value) | swapfield (field index, key, value) |
+           entrykey (key) | replaceblock (entry spec) | addfield (key, value)"""
+    lib = libgen.build_library(inp["lib"])
+    f = inp["fmt"] or {}
+    fmt = libgen.build_format(f)
+    # warm every view / cache a lazy implementation might keep
+    _ = lib.entries, lib.entries_dict, lib.strings, lib.failed_blocks
+    for b in lib.blocks:
+        if isinstance(b, Entry):
+            _ = b.fields_dict, b.items()
+    bwriter.write(lib, fmt)
+    n_applied = 0
+    for ed in inp["edits"]:
+        bi, kind = ed[0], ed[1]
+        if not lib.blocks:
+            break
+        b = lib.blocks[bi % len(lib.blocks)]
+        if kind == "replaceblock":
+            new = libgen.build_block(dict(ed[2], t="entry"))
+            try:
+                lib.replace(b, new, fail_on_duplicate_key=False)
+                n_applied += 1
+            except ValueError:
+                pass
+            continue
+        if not isinstance(b, Entry):
+            continue
+        if kind == "entrykey":
+            b.key = ed[2]
+        elif kind == "addfield":
+            b.set_field(libgen.Field(ed[2], ed[3]))
+        elif b.fields:
+            fi = ed[2] % len(b.fields)
+            if kind == "rename":
+                b.fields[fi].key = ed[3]
+            elif kind == "setvalue":
+                b.fields[fi].value = ed[3]
+            elif kind == "swapfield":
+                b.fields[fi] = libgen.Field(ed[3], ed[4])
+            else:
+                raise harness.HarnessError(f"unknown edit {ed!r}")
+        else:
+            continue
+        n_applied += 1
+    text = bwriter.write(lib, fmt)
+    exp = ref_render(lib, f)
+    cls = ["edited-after-read"]
+    if text != exp:
+        return (("edited:stale-view", repr(text), repr(exp)), True, cls)
+    return (None, n_applied > 0, cls)
+
+
+SUBS = {"write": o_write, "columns": o_columns, "setter": o_setter, "reuse": o_reuse, "edited": o_edited}
 
 FIXED_LIBS = [
     [{"t": "entry", "type": "article", "key": "k", "fields": [["a", "{1}", 0], ["title", "{T}", 1], ["averyveryverylongkeyindeed", "{L}", 2]], "line": 0, "raw": "r"},
@@ -235,6 +290,13 @@ def w_grid(acc):
         for a, b, c in itertools.permutations([0, 5, 12, 30, "auto"], 3):
             for ind in ("\t", ""):
                 acc.run("reuse", o_reuse, {"lib": lib, "fmts": [{"value_column": a, "indent": ind}, {"value_column": b, "trailing_comma": True}, {"value_column": c, "indent": "  ", "block_separator": "\n"}]}, True)
+    long_entry = {"type": "misc", "key": "new1", "fields": [["averyveryverylongfieldkeyindeed_andmore", "{v}", 0]], "line": 0, "raw": "r"}
+    for lib in FIXED_LIBS[:2]:
+        for vc in ("auto", 0, 12):
+            for edits in ([[0, "rename", 0, "a_much_longer_key_than_any_other_one"]], [[0, "rename", 2, "k"]], [[0, "swapfield", 1, "xy", "{N}"]], [[0, "setvalue", 0, "{changed}"]],
+                          [[1, "replaceblock", long_entry]], [[3, "replaceblock", long_entry]], [[0, "entrykey", "renamed"]], [[0, "addfield", "zzzzzzzzzzzzzzzzzzzzzzzzzzzzzzzzzzzz", "{n}"]],
+                          [[4, "rename", 0, "k"], [4, "addfield", "k2", "{x}"]]):
+                acc.run("edited", o_edited, {"lib": lib, "fmt": {"value_column": vc, "indent": " "}, "edits": edits}, True)
     for v in [-1, -5, 0, 1, 40, 1000, "auto", "Auto", "", "10", None, 1.5, [1], -(10**9)]:
         acc.run("setter", o_setter, {"value": v}, True)
 
@@ -269,6 +331,16 @@ def w_random(acc, n, seed):
     harness.run_hyp(acc, "columns", o_columns, cols, max(100, n // 3), seed)
     reuse = st.fixed_dictionaries({"lib": libgen.st_writer_library(5), "fmts": st.lists(libgen.st_format(), min_size=2, max_size=4)})
     harness.run_hyp(acc, "reuse", o_reuse, reuse, max(100, n // 6), seed)
+    fk = st.sampled_from(["a", "k", "title", "a_much_longer_key_than_any_other_one", "zz"])
+    edit = st.one_of(
+        st.tuples(st.integers(0, 7), st.just("rename"), st.integers(0, 5), fk).map(list),
+        st.tuples(st.integers(0, 7), st.just("setvalue"), st.integers(0, 5), st.sampled_from(["{n}", '"q"', "12"])).map(list),
+        st.tuples(st.integers(0, 7), st.just("swapfield"), st.integers(0, 5), fk, st.just("{s}")).map(list),
+        st.tuples(st.integers(0, 7), st.just("addfield"), fk, st.just("{a}")).map(list),
+        st.tuples(st.integers(0, 7), st.just("entrykey"), st.sampled_from(["nk", "k"])).map(list),
+    )
+    edited = st.fixed_dictionaries({"lib": libgen.st_writer_library(5), "fmt": libgen.st_format(comments=False), "edits": st.lists(edit, min_size=1, max_size=3)})
+    harness.run_hyp(acc, "edited", o_edited, edited, max(100, n // 6), seed)
     harness.run_hyp(acc, "setter", o_setter, st.fixed_dictionaries({"value": st.one_of(st.integers(-50, 100), st.text(max_size=5), st.floats(allow_nan=False), st.none())}), 200, seed)
 
 
@@ -294,4 +366,4 @@ def run(chk):
         "and library unchanged; value_column setter validation. Non-trivial: an entry with >= 2 fields under a non-default "
         "format (write), >= 2 fields (columns); distinct by case."
     )
-    chk.required_classes = ["auto", "auto>=2entries", "key-longer-than-column", "empty-indent", "zero-fields+trailing-comma", "failed+custom-comment", "non-blank-separator", "columns", "setter", "format-reuse"]
+    chk.required_classes = ["auto", "auto>=2entries", "key-longer-than-column", "empty-indent", "zero-fields+trailing-comma", "failed+custom-comment", "non-blank-separator", "columns", "setter", "format-reuse", "edited-after-read"]
